@@ -3,4 +3,4 @@ From LTV.C02 Require Import Model.
 Set Extraction Optimize.
 Extraction Language OCaml.
 (* Z.of_N only so that the shared ocaml/conv.ml (which mentions type z) compiles *)
-Extraction "extracted/c02_model.ml" run_case part_align Z.of_N.
+Extraction "extracted/c02_model.ml" run_case part_align probed_ok Z.of_N.
